@@ -149,14 +149,14 @@ func (c *MemoryCache[MetadataT]) Get(key CacheKey) (*Entry[MetadataT], error) {
 	}, nil
 }
 
-func (c *MemoryCache[MetadataT]) cacheInternal(key CacheKey, data io.Reader, expires time.Time, metadata MetadataT, evictIfFull bool) (*Entry[MetadataT], error) {
+func (c *MemoryCache[MetadataT]) cacheInternal(key CacheKey, dataBytes []byte, expires time.Time, metadata MetadataT, evictIfFull bool) (*Entry[MetadataT], error) {
 	maxCacheSize := c.maxCacheSize.Get()
 	limit := min(maxCacheSize, c.memoryCap.Get())
 
 	if c.byteSize.Get() >= limit {
 		if evictIfFull {
 			c.janitor.evict(limit)
-			entry, err := c.cacheInternal(key, data, expires, metadata, false)
+			entry, err := c.cacheInternal(key, dataBytes, expires, metadata, false)
 			if err != nil {
 				return nil, err
 			}
@@ -167,14 +167,7 @@ func (c *MemoryCache[MetadataT]) cacheInternal(key CacheKey, data io.Reader, exp
 		return nil, ErrCacheMemoryExceeded
 	}
 
-	buf := bytes.NewBuffer(make([]byte, 0, INIT_BUFFER_SIZE))
-	count, err := buf.ReadFrom(data)
-	if err != nil {
-		metrics.Global.Cache.CacheErrors.Increment()
-		return nil, err
-	}
-
-	dataBytes := buf.Bytes()
+	count := int64(len(dataBytes))
 	now := time.Now()
 	meta := &EntryMetadata[MetadataT]{
 		TimeWritten: now,
@@ -210,11 +203,19 @@ func (c *MemoryCache[MetadataT]) cacheInternal(key CacheKey, data io.Reader, exp
 }
 
 func (c *MemoryCache[MetadataT]) Cache(key CacheKey, data io.Reader, expires time.Time, metadata MetadataT) (*Entry[MetadataT], error) {
+	// The body is downloaded before the key's lock is taken: the lock is shared by every key of the
+	// shard, and nobody else should have to wait for this origin.
+	buf := bytes.NewBuffer(make([]byte, 0, INIT_BUFFER_SIZE))
+	if _, err := buf.ReadFrom(data); err != nil {
+		metrics.Global.Cache.CacheErrors.Increment()
+		return nil, err
+	}
+
 	lock := getLock(c.locks, key)
 	lock.Lock()
 	defer lock.Unlock()
 
-	return c.cacheInternal(key, data, expires, metadata, true)
+	return c.cacheInternal(key, buf.Bytes(), expires, metadata, true)
 }
 
 func (c *MemoryCache[MetadataT]) Delete(key CacheKey) error {
